@@ -344,6 +344,12 @@ impl Cx {
     pub async fn publish_op(&self, topic: &str, msgs: &[Msg]) -> (u64, Result<Vec<String>, Status>) {
         let mut c = self.publisher();
         let forward: Vec<String> = std::mem::take(&mut *self.w.forward_ids.lock().unwrap());
+        // Every third request with several messages carries ordering keys (legal on any topic; a
+        // subscription without message ordering treats them as plain messages): mixed, not sorted,
+        // some empty.
+        let nth = self.w.optional_fields.fetch_add(1, Ordering::Relaxed);
+        let keyed = msgs.len() >= 2 && nth % 3 == 1;
+        const KEYS: [&str; 5] = ["b", "a", "", "c", "a"];
         let req = pb::PublishRequest {
             topic: topic.into(),
             messages: msgs
@@ -352,6 +358,7 @@ impl Cx {
                 .map(|(i, m)| pb::PubsubMessage {
                     data: m.data.clone(),
                     attributes: m.attrs.clone(),
+                    ordering_key: if keyed { KEYS[(i + nth as usize) % KEYS.len()].to_string() } else { String::new() },
                     // output-only fields a forwarding client leaves filled in: the server ignores them
                     message_id: forward.get(i).cloned().unwrap_or_default(),
                     publish_time: if forward.get(i).is_some() { Some(prost_types::Timestamp { seconds: 1, nanos: 1 }) } else { None },
@@ -710,10 +717,16 @@ impl StreamHandle {
     }
 
     pub fn send(&self, acks: &[String], mod_ids: &[String], mod_secs: &[i32]) -> bool {
+        // Every third control message also carries the stream deadline (legal after the first
+        // request: it only updates the deadline for later deliveries, which this server does not
+        // use), every fifth a client id.
+        let nth = self.cx.w.optional_fields.fetch_add(1, Ordering::Relaxed);
         self.send_raw(pb::StreamingPullRequest {
             ack_ids: acks.to_vec(),
             modify_deadline_ack_ids: mod_ids.to_vec(),
             modify_deadline_seconds: mod_secs.to_vec(),
+            stream_ack_deadline_seconds: if nth % 3 == 1 { 10 + (nth % 591) as i32 } else { 0 },
+            client_id: if nth % 5 == 2 { "c".into() } else { String::new() },
             ..Default::default()
         })
     }
